@@ -151,7 +151,7 @@ func (vc *VC) loadRaw(st *State, addr Term, t types.Type) (Term, error) {
 			return arr, nil
 		}
 	}
-	return Select(vc.heap(st, srt), addr), nil
+	return Select(vc.peelHeap(vc.heap(st, srt), addr), addr), nil
 }
 
 func (vc *VC) storeAt(st *State, addr Term, t types.Type, v Term) error {
@@ -185,7 +185,9 @@ func (vc *VC) storeAt(st *State, addr Term, t types.Type, v Term) error {
 			return nil
 		}
 	}
-	vc.setHeap(st, srt, Store(vc.heap(st, srt), addr, v))
+	old := vc.heap(st, srt)
+	vc.setHeap(st, srt, Store(old, addr, v))
+	vc.noteLayer(st.heaps[srt], old, addr)
 	return nil
 }
 
@@ -210,6 +212,7 @@ func (vc *VC) leafSorts(t types.Type, out map[Sort]bool) {
 // allocObject returns a fresh object reference and bumps the allocation counter.
 func (vc *VC) allocObject(st *State, t types.Type) Term {
 	id := vc.Define("new", st.alloc)
+	vc.noteFreshRid(id)
 	st.alloc = vc.Define("alloc", Add(st.alloc, IntLit(1)))
 	r := MkRef(id, IntLit(0))
 	st.assume(Ge(id, IntLit(1)))
